@@ -1,7 +1,8 @@
 (* C17 — exported theorems only: each is closed by [exact] and followed by Print Assumptions.
    [fx] is the variant of the controller (Model.recheck_same_node; true = /repo since 025e424). *)
 From Coq Require Import List ZArith Bool.
-From Verif Require Import C17.Model C17.Spec C17.Codec C17.Proofs_ver C17.Proofs_trace C17.Proofs_spec C17.Proofs C17.Proofs_codec.
+From Verif Require Import C17.Model C17.Spec C17.Codec C17.Proofs_ver C17.Proofs_wabs C17.Proofs_own C17.Proofs_trace C17.Proofs_spec
+  C17.Proofs C17.Proofs_codec.
 Import ListNotations.
 Open Scope Z_scope.
 
@@ -53,6 +54,44 @@ Theorem c17_reconcile_evicts_once : forall fx s f, W s -> existsb (fun b => b) f
 Proof. exact reconcile_no_faults_once. Qed.
 Print Assumptions c17_reconcile_evicts_once.
 
+(* at the granularity of API writes: walking the calls of one reconcile in order (every successful job
+   write is a recorded call carrying the phase it persists), once a terminal phase is persisted no
+   later write changes the phase and no eviction / reservation creation follows *)
+Theorem c17_reconcile_write_absorbing : forall fx s f, W s ->
+  wabs (phase (sj s)) (snd (reconcile fx s f)).
+Proof. exact reconcile_wabs. Qed.
+Print Assumptions c17_reconcile_write_absorbing.
+
+(* the reservation the controller creates is allocate-once and has no current owner, whatever the
+   user-supplied template of the job says (reservation.CreateOrUpdateReservationOptions) *)
+Theorem c17_created_reservation_allocate_once : forall j p, good (new_res j p).
+Proof. exact good_new. Qed.
+Print Assumptions c17_created_reservation_allocate_once.
+
+(* [good r]: allocate-once, and a current owner only together with phase Succeeded. [oinv own ro]: if the
+   history says the reservation is the job's own creation ([own], Spec.mine_next), it exists and is good.
+   One reconcile keeps the invariant (the controller only creates or deletes the object, and either
+   ends the reconcile) and stamps every eviction call with the reservation it started with *)
+Theorem c17_reconcile_own_invariant : forall fx s f own, W s -> oinv own (sr s) ->
+  oinv (own_after own (snd (reconcile fx s f))) (sr (fst (reconcile fx s f)))
+  /\ (forall x, In x (snd (reconcile fx s f)) -> is_evict x = true -> est x = stamp_of (sr s) (sp s)).
+Proof. exact reconcile_own. Qed.
+Print Assumptions c17_reconcile_own_invariant.
+
+(* every operation keeps it: the scheduler's in-place transitions (schedule a pending reservation;
+   allocate a pod from an available one, which consumes an allocate-once reservation) preserve
+   [good]; replacing the object resets [own] *)
+Theorem c17_step_own_invariant : forall fx s o own, W s -> oinv own (sr s) ->
+  oinv (mine_next own o (obs_of (step fx s o))) (sr (fst (step fx s o))).
+Proof. exact step_own. Qed.
+Print Assumptions c17_step_own_invariant.
+
+(* reservation-first mode: no eviction call while the job's own reservation lists a current owner *)
+Theorem c17_reconcile_evict_unbound : forall fx s f own, W s -> oinv own (sr s) -> direct (sj s) = false ->
+  own = true -> unbound_evicts (snd (reconcile fx s f)).
+Proof. exact reconcile_unbound. Qed.
+Print Assumptions c17_reconcile_evict_unbound.
+
 (* ---- all histories of reconciles, environment events, faults, lagging reads and restarts, from ANY
         well-versioned start state ---- *)
 
@@ -70,6 +109,17 @@ Theorem c17_trace_timeout_deletes : forall fx ops s, W s -> timeout_deletes (sj 
 Proof. exact trace_timeout. Qed.
 Print Assumptions c17_trace_timeout_deletes.
 
+(* clause 11 for all histories *)
+Theorem c17_trace_write_absorbing : forall fx ops s, W s -> write_absorbing (sj s) (obs_from fx s ops).
+Proof. exact trace_wabs. Qed.
+Print Assumptions c17_trace_write_absorbing.
+
+(* clause 10 for all histories, from any start state whose reservation satisfies the invariant *)
+Theorem c17_trace_evict_unbound : forall fx ops s own, W s -> oinv own (sr s) -> direct (sj s) = false ->
+  evict_unbound own ops (obs_from fx s ops).
+Proof. exact trace_unbound. Qed.
+Print Assumptions c17_trace_evict_unbound.
+
 (* with no API errors anywhere in the history the job evicts at most once *)
 Theorem c17_evict_at_most_once : forall fx ops s, W s -> at_most_once ops (obs_from fx s ops).
 Proof. exact trace_once. Qed.
@@ -81,7 +131,7 @@ Theorem c17_prop_code_spec : forall j0 ops obs, prop_code j0 ops obs = 0 <-> C17
 Proof. exact prop_code_spec. Qed.
 Print Assumptions c17_prop_code_spec.
 
-(* clauses 1-7 (everything but the strict timeout clause) for all histories of the current variant *)
+(* clauses 1-7, 10, 11 (everything but the strict timeout clause 8) for all histories of the current variant *)
 Theorem c17_core_all_histories : forall j0 ops, C17_core j0 ops (observe_fx true j0 ops).
 Proof. exact core_all_histories. Qed.
 Print Assumptions c17_core_all_histories.
@@ -134,11 +184,11 @@ Print Assumptions c17_old_violations_are_the_known_shapes.
 
 (* ---- non-vacuity ---- *)
 Definition ex_pod1 := mkPod 1 1 2 true.
-Definition ex_job := init_job false false 5 true 1 false false.
+Definition ex_job := init_job false false 5 true 1 false false 0.
 (* a migration that evicts exactly once and succeeds *)
 Definition ex_happy : list op :=
-  [OSetPod (Some ex_pod1); OReconcile []; OSetRes (Some (mkRes true RP_AVAILABLE 2 SC_SCHEDULED false 1 0 false false));
-   OReconcile []; OSetPod None; OSetRes (Some (mkRes true RP_SUCCEEDED 2 SC_SCHEDULED false 1 2 false false));
+  [OSetPod (Some ex_pod1); OReconcile []; OSetRes (Some (mkRes true RP_AVAILABLE 2 SC_SCHEDULED false 1 0 false false true));
+   OReconcile []; OSetPod None; OSetRes (Some (mkRes true RP_SUCCEEDED 2 SC_SCHEDULED false 1 2 false false true));
    OReconcile []; OReconcile []; OTick 9; OReconcile []].
 Example c17_ex_happy :
   count_evicts (observe ex_job ex_happy) = 1%nat
@@ -150,12 +200,12 @@ Definition ex_timeout : list op :=
   [OSetPod (Some ex_pod1); OReconcile []; OTick 7; OReconcile []].
 Example c17_ex_timeout :
   map (fun o => (phase (o_job o), reason (o_job o), o_res o)) (observe ex_job ex_timeout)
-  = [(PH_PENDING, 0, None); (PH_RUNNING, 0, Some (true, 1)); (PH_RUNNING, 0, Some (true, 1)); (PH_FAILED, RS_TIMEOUT, None)].
+  = [(PH_PENDING, 0, None); (PH_RUNNING, 0, Some (true, 1, true)); (PH_RUNNING, 0, Some (true, 1, true)); (PH_FAILED, RS_TIMEOUT, None)].
 Proof. vm_compute. reflexivity. Qed.
 (* an eviction that is refused: reservation on the pod's own node *)
 Example c17_ex_same_node :
   let ops := [OSetPod (Some ex_pod1); OReconcile [];
-              OSetRes (Some (mkRes true RP_AVAILABLE 1 SC_SCHEDULED false 1 0 false false)); OReconcile []] in
+              OSetRes (Some (mkRes true RP_AVAILABLE 1 SC_SCHEDULED false 1 0 false false true)); OReconcile []] in
   count_evicts (observe ex_job ops) = 0%nat
   /\ reason (o_job (last (observe ex_job ops) (mkObs [] ex_job None))) = RS_FORBIDDEN.
 Proof. vm_compute. split; reflexivity. Qed.
@@ -163,8 +213,34 @@ Proof. vm_compute. split; reflexivity. Qed.
    the evicting reconcile: skipped by the guard, still exactly one eviction; W holds at the start *)
 Example c17_ex_lagging :
   let ops := [OSetPod (Some ex_pod1); OReconcile [];
-              OSetRes (Some (mkRes true RP_AVAILABLE 2 SC_SCHEDULED false 1 0 false false)); OReconcile [];
+              OSetRes (Some (mkRes true RP_AVAILABLE 2 SC_SCHEDULED false 1 0 false false true)); OReconcile [];
               OStale 1; OReconcile []; OReconcile []] in
   count_evicts (observe ex_job ops) = 1%nat /\ W (init_state ex_job)
   /\ lag_of (fst (last (run true (init_state ex_job) (firstn 5 ops)) (init_state ex_job, []))) = 1%nat.
 Proof. vm_compute. repeat split. right. reflexivity. Qed.
+
+(* the scheduler hands the job's reservation to a sibling pod before the controller looks again: the
+   job is failed (Forbidden) and nothing is evicted — also when the user's template asks for a
+   reusable reservation (tmpl 3 = AllocateOnce false): the created object is allocate-once anyway.
+   Without the allocation the same history evicts (with [own] true: clause 10 is not vacuous) *)
+Definition ex_job_tmpl := init_job false false 0 true 1 false false 3.
+Definition ex_sibling (alloc : bool) : list op :=
+  [OSetPod (Some ex_pod1); OReconcile []; OSched 2] ++ (if alloc then [OAlloc 3] else []) ++ [OReconcile []; OReconcile []].
+Example c17_ex_sibling :
+  count_evicts (observe ex_job_tmpl (ex_sibling true)) = 0%nat
+  /\ reason (o_job (last (observe ex_job_tmpl (ex_sibling true)) (mkObs [] ex_job None))) = RS_FORBIDDEN
+  /\ map o_res (firstn 2 (observe ex_job_tmpl (ex_sibling true))) = [None; Some (true, 1, true)]
+  /\ count_evicts (observe ex_job_tmpl (ex_sibling false)) = 1%nat
+  /\ fold_left (fun own x => mine_next own (fst x) (snd x))
+               (combine (firstn 3 (ex_sibling false)) (observe ex_job_tmpl (ex_sibling false))) false = true.
+Proof. vm_compute. repeat split. Qed.
+(* the decision procedure rejects an eviction against an own reservation that lists another owner, and a
+   phase change / reservation creation after a terminal write inside one reconcile (what the model
+   never does) *)
+Example c17_ex_clauses_10_11_reject :
+  let st := mkStamp true RP_AVAILABLE 2 SC_SCHEDULED false 3 false false 1 1 in
+  unbound_evictsb [mkEff EEvict true st 0] = false
+  /\ wabsb PH_PENDING [mkEff EWrite true stamp0 PH_FAILED; mkEff EWrite true stamp0 PH_RUNNING] = false
+  /\ wabsb PH_PENDING [mkEff EWrite true stamp0 PH_FAILED; mkEff ECreate true stamp0 0] = false
+  /\ wabsb PH_PENDING [mkEff EWrite true stamp0 PH_RUNNING; mkEff ECreate true stamp0 0; mkEff EWrite true stamp0 PH_RUNNING] = true.
+Proof. vm_compute. repeat split. Qed.
